@@ -328,6 +328,12 @@ func (t *TTY) put(r rune) {
 			}
 		}
 	}
+	if s.col < 0 || s.col >= t.Cols || s.row < 0 || s.row >= t.Rows {
+		// a glyph wider than the whole screen
+		t.Overflow++
+		t.clamp()
+		return
+	}
 	row := s.cells[s.row]
 	row[s.col] = Cell{R: r, W: int8(w), Attr: t.attr, Fg: t.fg, Bg: t.bg}
 	if w == 2 && s.col+1 < t.Cols {
